@@ -180,6 +180,9 @@ NOT_FRESH = {
     "sexp_lookup_type_op": "type objects live in the context's type table",
     "sexp_register_type_op": "stored in the context's type table before returning",
     "sexp_register_simple_type_op": "stored in the context's type table before returning",
+    "sexp_get_bucket": "never a heap object: the fixnum computed by sexp_hash / sexp_hash_by_identity, or the user hash "
+                       "function's result only when its unboxed value is below the bucket count - which no heap pointer "
+                       "satisfies - and SEXP_ZERO otherwise (the inference sees only that a sexp_apply result may be returned)",
 }
 # boxing functions that return an immediate for small arguments
 INT_BOXERS = {"sexp_make_integer", "sexp_make_unsigned_integer", "sexp_make_integer_from_lsint",
